@@ -2,7 +2,7 @@
 import fam_imports as fi
 from vlib import load_known
 
-OWNED = {"UnmentionedKept", "NothingUnmentionedAdded", "PlusPresent", "MinusGoneWhenUnused", "MatchedKeptWhenUsed", "NothingInvented", "NoError"}
+OWNED = {"UnmentionedKept", "NothingUnmentionedAdded", "PlusPresent", "MinusGoneWhenUnused", "MatchedKeptWhenUsed", "NothingInvented", "NoError", "C03_PlusUnderCapturedName"}
 ASSUME = [
     "scenarios of the TLA+ universe are rendered to patch text and Go source by lib/fam_imports.py (4 import layouts incl. several blocks and commented specs, remaining uses as plain and chained selectors, shadowing decoys); imports and remaining uses are read off the real output by go/parser (harness op impobs)",
     "'refers to its package name' = the name occurs as the base of a selector and does not resolve to a local declaration (go/parser object resolution)",
